@@ -82,6 +82,8 @@ def run(ctx: Ctx):
     r13_5(ctx)
     r13_6(ctx)
     r13_7(ctx)
+    from ..util import persistent_state
+    persistent_state(ctx, "R13.8", [f_ for f_ in (ctx.repo.func(q_, required=False) for q_ in ('GroFile.writeline', 'GroFile._setup_write_file', 'GroFile.parse_atomlist', 'GroFile.parse_atomline', 'GroFile.determine_format', 'extract_lattice_gro', 'dump_lattice_gro')) if f_ is not None], "writing and reading a record")
 
 
 # ---------------------------------------------------------------------------
